@@ -8,6 +8,7 @@ Protocol (model name `cal`; days are datetime.toordinal() numbers, plain integer
                                                    `calendar('X', hols, t0 = datetime.now())`): a range endpoint is a DAY (defect C05-D3)
   (cal reg <key> hol|N weekend|N t0|N t1|N)        calendar(key, ...) through the module registry; reply describes the calendar
   (cal isb t) (cal ishol t) (cal adjust a t) (cal add a t n) (cal bump a t n) (cal bdays a x y) (cal drange x y b)
+  (cal clock t)                                    Calendar.clock(t): the table index of adjust(t) (observe_at lists `clock`)
   (cal ymd n)                                      the model's Gregorian arithmetic against datetime
 `a` is f|p|m or d (= None: the calendar's own convention).
 """
@@ -24,7 +25,7 @@ TRUSTED = ['correspondence harness (pv.engine, pv.proto) and generators of pv.pr
            'Lean driver parser/printer (PygModel/Basic.lean, CalendarDriver.lean)']
 ASSUMPTIONS = ['dateutil.rrule(DAILY, dtstart, until, byweekday) enumerates every day of [t0, t1] whose weekday is listed, in increasing order',
                'datetime: toordinal/fromordinal/weekday/month agree with the closed-form Gregorian arithmetic of PygModel/Civil.lean (sampled by the ymd op)',
-               'all dates handed to the calendar are midnight datetimes; trade_date / is_trading / clock (intraday) are not modelled',
+               'all dates handed to the calendar are midnight datetimes; trade_date / is_trading (intraday) are not modelled',
                'a weekend that covers all seven weekdays (adjust never returns) is not generated']
 
 D = datetime.datetime
@@ -292,6 +293,7 @@ def generate(rng, tier):
                 lines.append('(cal bump %s %d %d)' % (a, t, n))
             u = min(max(t + rng.randrange(-60, 61), t0), t1)
             lines.append('(cal bdays %s %d %d)' % (rng.choice('dfpm'), t, u))
+            lines.append('(cal clock %d)' % t)
             u = min(t + rng.choice([0, 1, 2, 5, 9, 20, 40]), t1)
             r = rng.random()
             if r < 0.7:
@@ -426,6 +428,8 @@ def run_line(state, sx):
         return 'ok I:%d' % to(c.add(fo(int(args[1])), int(args[2]), adj=_adj(args[0])))
     if op == 'bump':
         return 'ok I:%d' % to(c.dt_bump(fo(int(args[1])), '%db' % int(args[2]), adj=_adj(args[0])))
+    if op == 'clock':
+        return 'ok I:%d' % c.clock(fo(int(args[0])))
     if op == 'bdays':
         return 'ok I:%d' % c.bdays(fo(int(args[1])), fo(int(args[2])), adj=_adj(args[0]))
     if op == 'drange':
@@ -560,6 +564,9 @@ def _laws(rng, tier, ctx):
                 if got != fo(want):
                     yield bad('add-nth', ['(cal add d %d %d)' % (t, n)], 'add(%s, %d) = %s, the %d-th business day from adjust(t) is %s' % (T, n, got, n, fo(want)))
                     continue
+                ck = call(lambda: c.clock(got) - c.clock(T))     # clock = the position in the business-day table: it advances by n
+                if ck != n:
+                    yield bad('clock', ['(cal add d %d %d)' % (t, n), '(cal clock %d)' % t, '(cal clock %d)' % want], 'clock(add(t, %d)) - clock(t) = %s' % (n, ck))
                 k = call(lambda: c.bdays(T, got))
                 if k != n:
                     yield bad('bdays-add', ['(cal add d %d %d)' % (t, n), '(cal bdays d %d %d)' % (t, want)], 'bdays(t, add(t, %d)) = %s' % (n, k))
